@@ -206,6 +206,14 @@ def generate(rng, config):
         c, args = _gen_dag(rng)
     args = [str(a) for a in args]
     r = rng.random()
+    COUNTS = {"gnm": [1], "gnd": [1], "glrm": [2], "glrd": [2],
+              "regular": [2], "shift": [2, 3]}
+    if r > 0.97 and c in COUNTS:
+        # a count far beyond anything the graph has room for: a refusal,
+        # and within a bounded number of steps
+        i = rng.choice(COUNTS[c])
+        if i < len(args):
+            args[i] = str(rng.choice([10 ** 6, 10 ** 9, 10 ** 20]))
     if r < 0.04 and args:
         args[rng.randrange(len(args))] = _weird(rng)
     elif r < 0.07 and args:
@@ -222,14 +230,15 @@ def generate(rng, config):
     rng.shuffle(pool)
     for m in pool[:rng.choice([0, 0, 1, 1, 2, 3])]:
         if m == "plantclique":
-            mods.append([m, str(rng.choice([0, 1, 2, 3, 4, 9]))])
+            mods.append([m, str(rng.choice([0, 1, 2, 3, 4, 9, 10 ** 20]))])
         elif m == "plantbiclique":
             mods.append([m, str(rng.choice([0, 1, 2, 3, 7])),
                          str(rng.choice([0, 1, 2, 3, 7]))])
         elif m == "addedges":
-            mods.append([m, str(rng.choice([0, 1, 2, 5, 40]))])
+            mods.append([m, str(rng.choice([0, 1, 2, 5, 40, 10 ** 9,
+                                            10 ** 20]))])
         else:
-            mods.append([m, str(rng.choice([0, 1, 2, 3, 30]))])
+            mods.append([m, str(rng.choice([0, 1, 2, 3, 30, 10 ** 20]))])
     save = None
     if rng.random() < 0.3 or config == "cli":
         fmts = {"simple": ["kthlist", "dimacs", "gml", "dot"],
